@@ -82,7 +82,7 @@ def ref_problems(lib, refs):
                         rep = (k, outcome)
                         break
                     prev_ok = st if outcome == "ok" else None
-                elif st["s"] not in ("touch", "write", "enzo_patch"):
+                elif st["s"] not in ("touch", "write", "enzo_patch", "repickle"):
                     prev_ok = None
             first_bad = next(i for i, s_ in enumerate(a["steps"]) if s_.startswith("exc:"))
             if rep is not None and d["steps"][first_bad]["s"] in ("render", "cli_render", "to_code", "export") and \
@@ -117,7 +117,7 @@ def ref_problems(lib, refs):
                                     "files": diff_files(a["renders"][k], a["renders"][prev[1]])})
                     break
                 prev = (st, k)
-            elif st["s"] not in ("touch", "write", "enzo_patch"):
+            elif st["s"] not in ("touch", "write", "enzo_patch", "repickle"):
                 prev = None
     # prior renderings (and to_code / export calls) must not influence a later rendering
     byid = {d["id"]: d for d in lib}
@@ -141,7 +141,8 @@ def ref_problems(lib, refs):
         if a != b:
             files = diff_files(full[-1], last[-1]) if "digest" in full[-1] and "digest" in last[-1] else \
                 [f"{o}: {a[:60]}; {d['id']}: {b[:60]}"]
-            clause = "sibling-network-influences-render" if d.get("twin_kind") == "sibling" else "prior-render-influences-later-render"
+            clause = {"sibling": "sibling-network-influences-render",
+                      "constructor": "edit-history-influences-render"}.get(d.get("twin_kind"), "prior-render-influences-later-render")
             hs_viol.append({"desc": byid[o], "twin": d, "render": len(full) - 1, "clause": clause, "files": files})
             unusable.pop(o, None)
             unusable.pop(d["id"], None)
@@ -1002,6 +1003,11 @@ def report(viols, hs_viol, lib_by_id, lib, refs, seed, scratch, first_replay=0):
             K.write_replay(PROP, seed, first_replay + len(replays) - 1, doc)
             out.append(f"violated clause: prior-render-influences-later-render: {h['desc']['id']} alone: its last rendering differs from "
                        f"the same script with the earlier render/to_code/export (and read-only write/inspection) steps left out, in {h['files'][:5]}")
+        elif h["clause"] == "edit-history-influences-render":
+            doc["twin"] = h["twin"]
+            K.write_replay(PROP, seed, first_replay + len(replays) - 1, doc)
+            out.append(f"violated clause: edit-history-influences-render: {h['desc']['id']} alone (allowed list set after building): its "
+                       f"last rendering differs from that of {h['twin']['id']}, the same network constructed with that list, in {h['files'][:5]}")
         elif h["clause"] == "sibling-network-influences-render":
             doc["twin"] = h["twin"]
             K.write_replay(PROP, seed, first_replay + len(replays) - 1, doc)
